@@ -1052,6 +1052,32 @@ fn main() {
             }
         };
         let _ = std::fs::remove_dir_all(&warmdir);
+        // After a warm-up that was disturbed by a single injected fault, a second, undisturbed one: whatever the first one did
+        // not get to initialise (it may have stopped at the failing call) is initialised here, still under the supervisor and
+        // its deny policy -- the jobs' own set-up runs outside any traced region and would otherwise let the library's feature
+        // probes see the real kernel.  What the first warm-up did initialise (possibly from a failed call) stays as it is.
+        if let Some((_, _, false)) = args.warm_fault {
+            let deny2 = args.deny.clone();
+            let warmdir3 = args.work.join(format!("warm2_{}", std::process::id()));
+            let _ = std::fs::create_dir_all(&warmdir3);
+            let _ = std::os::unix::fs::symlink(".", warmdir3.join("l"));
+            let warmdir4 = warmdir3.clone();
+            let _ = sup::traced(
+                move || {
+                    if let Ok(wroot) = Root::open(&warmdir4) {
+                        let _ = wroot.resolve("l");
+                    }
+                    if let Ok(root) = Root::open("/") {
+                        if let Ok(h) = root.resolve("etc/../.") {
+                            let _ = h.reopen(OpenFlags::O_RDONLY | OpenFlags::O_DIRECTORY);
+                        }
+                        let _ = root.rename("/nonexistent-warmup-a", "/nonexistent-warmup-b", RenameFlags::RENAME_NOREPLACE);
+                    }
+                },
+                |_i, nr, _a, _ev| if deny2.contains(&nr) { Verdict::Inject(libc::ENOSYS) } else { Verdict::Execute },
+            );
+            let _ = std::fs::remove_dir_all(&warmdir3);
+        }
         writeln!(outf, "{}", json!({"id": "warmup", "res": r, "trace": trace.events,
                                     "fds_after": tree::fd_table(&[])})).unwrap();
     }
